@@ -338,7 +338,13 @@ func (env *SpecEnv) load(p *Ptr) Term {
 			delete(fx.nonNil, p.Ref.S)
 		}
 	}()
-	return fx.Load(env.state(), p)
+	v := fx.Load(env.state(), p)
+	// no dangling references: anything a heap cell holds was allocated before the state it is read in
+	// (so it cannot alias an object allocated later); not stated for terms under a binder
+	if st := env.state(); st != nil && st.nextRef.S != "" && st.nextRef.S != TZero.S && !strings.Contains(v.S, "q$") && !strings.Contains(p.Ref.S, "q$") {
+		fx.sc.Assume(fx.heapClosed(st, v, p.T, 1))
+	}
+	return v
 }
 
 func (env *SpecEnv) unifyNil(a, b SpecVal) (SpecVal, SpecVal) {
@@ -420,6 +426,13 @@ func (env *SpecEnv) sel(x SSel) SpecVal {
 	fx := env.fx
 	// package-qualified constant or variable
 	if id, ok := x.X.(SIdent); ok {
+		// callee.<param>: the argument bound to that parameter at a call site (callsite clauses)
+		if id.Name == "callee" {
+			if v, ok := env.vars["callee."+x.Name]; ok {
+				return v
+			}
+			specFail("callee.%s: no such parameter at this call site", x.Name)
+		}
 		if _, isVar := env.vars[id.Name]; !isVar {
 			if p := env.importedPkg(id.Name); p != nil {
 				return env.pkgMember(p, x.Name)
